@@ -9,6 +9,7 @@ From Dimod Require Model.ViewOps Proofs.ViewOpsFacts Model.HPolyPy Proofs.HPolyP
 From Dimod Require Gen.Gen_CppVartype Proofs.CppVartypeFacts Gen.Gen_SSetVartype Proofs.SSetVartypeGenFacts.
 From Dimod Require Gen.Gen_IsingQubo Model.IsingQuboGen Proofs.IsingQuboGenFacts Model.FlipMarks Proofs.FlipMarksFacts.
 From Dimod Require Gen.Gen_HPolyPy Proofs.HPolyPyGenFacts.
+From Dimod Require Gen.Gen_VartypeLoops Model.VartypeLoopsGen Proofs.VartypeLoopsFacts Model.VartypeLoopsSub Proofs.Round4Corners.
 Import ListNotations.
 Open Scope Qc_scope.
 
@@ -866,3 +867,30 @@ Example C02_example :
   energy (spin_to_binary 1%nat (spin_to_binary 0%nat p)) (fun _ => 1) = energy p (fun _ => 1)
   /\ energy (spin_to_binary 1%nat (spin_to_binary 0%nat p)) (fun _ => 0) = energy p (fun _ => qc (-1) 1).
 Proof. vm_compute. split; reflexivity. Qed.
+
+(* ---- the python loops of spin_to_binary, iteration domain / tested vartype / target generated from the source
+        (translators/vartype_loops.py accepts no domain but self.variables: every variable of the model, whether or
+        not it occurs in the objective or in any constraint) ---- *)
+Theorem C02_qm_spin_to_binary_uses_source_loop :
+  forall q : VartypeOps.qmi,
+  VartypeOps.qm_spin_to_binary q = VartypeLoopsGen.qm_stb_loop Gen_VartypeLoops.gen_qm_stb_loop q.
+Proof. exact VartypeLoopsFacts.qm_spin_to_binary_uses_source_loop. Qed.
+Print Assumptions C02_qm_spin_to_binary_uses_source_loop.
+
+Theorem C02_cqm_spin_to_binary_uses_source_loop :
+  forall q : Expr.mcqm,
+  VartypeOps.cqm_spin_to_binary q = VartypeLoopsGen.cqm_stb_loop Gen_VartypeLoops.gen_cqm_stb_loop q.
+Proof. exact VartypeLoopsFacts.cqm_spin_to_binary_uses_source_loop. Qed.
+Print Assumptions C02_cqm_spin_to_binary_uses_source_loop.
+
+(* the same loop restricted to the objective's variables (the shape translators/vartype_loops.py rejects) does NOT have
+   the property: a spin variable that occurs only in a constraint keeps its vartype and the constraint's activity at
+   the converted sample changes *)
+Theorem C02_cqm_spin_to_binary_over_objective_only_refuted :
+  exists (q q' : Expr.mcqm) (k k' : Expr.mcon) (s : sample),
+    VartypeLoopsSub.cqm_stb_over (Expr.e_vars (Expr.m_obj q)) SPIN BINARY q = Some q' /\
+    VartypeOps.cq_vartype q' 1 = SPIN /\
+    nth_error (Expr.m_cons q) 0 = Some k /\ nth_error (Expr.m_cons q') 0 = Some k' /\
+    VartypeOps.mc_activity k' s <> VartypeOps.mc_activity k (fun v => two * s v - 1).
+Proof. exact Round4Corners.cqm_stb_over_objective_only_refuted. Qed.
+Print Assumptions C02_cqm_spin_to_binary_over_objective_only_refuted.
